@@ -20,7 +20,8 @@ def collect(ctx):
 def run(ctx):
     ctx.rule = ("TLC enumerates every (reference symbol, query symbol) pair x {soft,hard} x 4 case combinations and every "
                 "width-3 row over {A,C,R,N,-,?} against chosen references (all of them in thorough); seeded random alignments "
-                "(width 5-125, 1-30 queries, wrapped/CRLF/lower case); non-trivial = an alignment with at least one SNP column "
+                "(width 5-125, 1-30 queries, wrapped/CRLF/lower case/unterminated last line), rows of several kilobytes, and padded alignments of "
+                "more than 100,000 columns (a unit alignment with runs of identical columns inserted; positions shift by Distance!ThmPad); non-trivial = an alignment with at least one SNP column "
                 "and at least one non-SNP column, distinct by canonical hash of the abstract input")
     obs = collect(ctx)
     rows, fails, _ = kernel.validate_obs(ctx, "ObsC03", "ObsC03.cfg", obs, tag="snps")
